@@ -195,6 +195,7 @@ namespace bloch::runtime {
         std::vector<RuntimeField> instanceFields;
         std::vector<RuntimeField> staticFields;
         std::vector<Value> staticStorage;
+        bool staticInitStarted = false;  // initStaticFields has been entered for this class
         std::unordered_map<std::string, size_t> instanceFieldIndex;
         std::unordered_map<std::string, size_t> staticFieldIndex;
         std::unordered_map<std::string, std::vector<RuntimeMethod>> methods;
